@@ -100,20 +100,34 @@ Proof.
   - cbn [forallb] in Hs. apply andb_true_iff in Hs. destruct Hs as [Hx Hs]. rewrite Hx, (IH Hs). reflexivity.
 Qed.
 
+Lemma plain_body s : forallb rfc_QUOTED_PLAIN s = true -> quoted_body s.
+Proof.
+  induction s as [|c s IH]; intro H; [constructor|]. cbn [forallb] in H. apply andb_true_iff in H. destruct H as [Hc Hs].
+  apply qb_plain; [exact Hc | exact (IH Hs)].
+Qed.
+Lemma enc_quoted_intro s : forallb rfc_QUOTED_PLAIN s = true -> enc_quoted s ([34] ++ s ++ [34]).
+Proof. intro H. constructor. apply plain_body, H. Qed.
+
+Definition quoted_normal (b : byte) : bool := cls_core_x_is_text_char b && negb (cls_core_x_is_quoted_specials b).
+
+Lemma esc_scan_body s rest : quoted_body s -> esc_scan quoted_normal 92 [92; 34] (s ++ 34 :: rest) = SOk s (34 :: rest).
+Proof.
+  intro H. induction H as [| c s Hc Hs IH | c s Hc Hs IH]; cbn [app esc_scan].
+  - reflexivity.
+  - replace (quoted_normal c) with true by (symmetry; exact (quoted_plain_ok c Hc)). rewrite IH. reflexivity.
+  - change (quoted_normal 92) with false. cbn [N.eqb Pos.eqb]. destruct Hc as [-> | ->]; cbn [existsb N.eqb Pos.eqb orb]; rewrite IH; reflexivity.
+Qed.
+
 Lemma ok_quoted s w d : enc_quoted s w -> OK (Ref f_core_x_quoted DSame) d w (VBytes s) any.
 Proof.
-  intros [s' Hs]. apply (okref _ _ _ _ _ _ _ env_quoted). unfold def_core_x_quoted.
+  intros [s' Hs]. apply (okref _ _ _ _ _ _ _ env_quoted). unfold def_core_x_quoted. fold quoted_normal.
   eapply ok_map.
   { apply ok_seq.
-    (* "\"" content "\"" *)
     regroup ([34] ++ (s' ++ ([34] ++ []))).
     eapply (okseq_cons _ _ _ _ _ _ _ _ _ _ any any); [apply ok_tag | | intros; exact I].
     eapply (okseq_cons _ _ _ _ _ _ _ _ _ _ (fun rest => match rest with c :: _ => c = 34 | [] => False end) any).
-    - (* the escaped leaf *)
-      apply ok_leaf. intros rest Hr. cbn [leaf_run].
-      destruct rest as [|c rest]; [destruct Hr|]. subst c.
-      rewrite esc_scan_plain; [reflexivity | | reflexivity | reflexivity].
-      apply (forallb_impl rfc_QUOTED_PLAIN); [apply quoted_plain_ok | exact Hs].
+    - apply ok_leaf. intros rest Hr. cbn [leaf_run].
+      destruct rest as [|c rest]; [destruct Hr|]. subst c. pose proof (esc_scan_body s' rest Hs) as E. change byte with N in *. rewrite E. reflexivity.
     - eapply (okseq_cons _ _ _ _ _ _ _ _ _ _ any any); [apply ok_tag | apply (okseq_nil _ _ _ _ any) | intros; exact I].
     - intros rest _. reflexivity. }
   reflexivity.
